@@ -485,6 +485,16 @@ class Obs(dict):
     pass
 
 
+def is_fit_failure(e: BaseException) -> bool:
+    """Numerical failure of a third-party fit/solve on generated data (not a behaviour the property talks about)."""
+    if isinstance(e, (np.linalg.LinAlgError, FloatingPointError, ZeroDivisionError)):
+        return True
+    text = str(e).lower()
+    return isinstance(e, (ValueError, RuntimeError)) and any(
+        w in text for w in ("singular", "infs or nans", "contains nan", "contains infinity", "ill-conditioned", "did not converge", "not positive definite")
+    )
+
+
 def check_reg(case: dict[str, Any], res: Result | None = None, deep: bool = True, corr: C.Corr | None = None) -> list[tuple[str, str]]:
     """Run the real code on the case and return the violated clauses [(key, message)]."""
     bad: list[tuple[str, str]] = []
@@ -497,6 +507,11 @@ def check_reg(case: dict[str, Any], res: Result | None = None, deep: bool = True
     try:
         model = L.build_model(case)
     except Exception as e:  # noqa: BLE001
+        if is_fit_failure(e):
+            # an ill-posed fit (singular interpolation matrix, SVD that does not converge, ...): the fitting procedures
+            # are outside the property and outside the model; skipped and counted, never a verdict
+            count(f"fit-failed-skipped:{case['algo']}")
+            return []
         if case["algo"] in OT_ALGOS:
             # the OpenTURNS-based fits are not modelled (dimension bookkeeping of reduced inputs, optimiser failures)
             count("ot-fit-failed-skipped")
@@ -593,7 +608,11 @@ def check_reg(case: dict[str, Any], res: Result | None = None, deep: bool = True
                     # a hard mixture of experts is not differentiable across a cluster boundary
                     count("moe-boundary-skipped")
                     continue
-                ref, dis = L.fd_reference(model.predict, q)
+                try:
+                    ref, dis = L.fd_reference(model.predict, q)
+                except Exception:  # noqa: BLE001  (predict at a stencil point failed: no reference, no verdict)
+                    count("fd-failed-skipped")
+                    continue
                 if not L.finite(ref):
                     count("fd-nonfinite")
                     continue
@@ -955,6 +974,9 @@ def check_tr(case: dict[str, Any], res: Result | None = None, corr: C.Corr | Non
             t.fit(X.copy())
         Z = np.asarray(t.transform(X.copy()), dtype=float)
     except Exception as e:  # noqa: BLE001
+        if is_fit_failure(e):
+            count(f"fit-failed-skipped:{tag}")
+            return []
         return [(f"crash-transformer:{tag}:{type(e).__name__}", f"fit/transform raised {type(e).__name__}: {str(e)[:200]}")]
     if Z.ndim != 2 or Z.shape[0] != X.shape[0] or not L.finite(Z):
         return [(f"transform-shape:{tag}", f"transform of the fitting data returned shape {Z.shape} or a non-finite value")]
@@ -1214,8 +1236,15 @@ def run_kernel_stream(res: Result, rng: common.Rng, corr: C.Corr, n_per_kernel: 
                     suspects.add(kernel)
                     res.notes.append(f"der_{kernel}({diffs.tolist()}, {dist}, eps={float(eps)})[{j}] = {val} but the derivative of the SciPy kernel is {float(ref)}")
             # SciPy's kernel itself (trusted definition, sampled): phi(r) of the real Rbf object vs model and mpmath
-            rbf = Rbf(np.array([0.0, dist]), np.array([0.0, 1.0]), function=kernel, epsilon=float(eps))
-            phi_scipy = float(rbf.A[0, 1])
+            # (the constructor of Rbf solves A w = d: with the kernel value alone on the off-diagonal the 2x2 system is
+            # singular e.g. for thin_plate at r = 1 where phi = 0; a large negative `smooth` only changes the DIAGONAL of
+            # A (A = phi(r) - smooth*I), keeps the reference solve regular and leaves A[0,1] = phi(r) bit for bit)
+            try:
+                rbf = Rbf(np.array([0.0, dist]), np.array([0.0, 1.0]), function=kernel, epsilon=float(eps), smooth=-(2.0**20))
+                phi_scipy = float(rbf.A[0, 1])
+            except Exception as e:  # noqa: BLE001  (reference object of the harness, never a verdict)
+                res.count(f"kernel-reference-skipped:{kernel}:{type(e).__name__}")
+                continue
             res.evaluations += 1
             if not C.frac_close([float(phi(mp.mpf(dist), mp.mpf(float(eps))))], [phi_scipy], C.TWO30):
                 res.violate("correspondence", f"scipy-kernel:{kernel}", f"scipy.interpolate.Rbf kernel {kernel} is not the documented function at r={dist}, eps={float(eps)}", {"kernel": kernel, "r": dist, "eps": float(eps), "scipy": phi_scipy})
